@@ -595,30 +595,6 @@ func ptCompare(e *env, c ptCase, r *ptResult, m ptModel) bool {
 
 // ---------- inputs ----------
 
-// knownScannerHang: the two scanner loops of the pinned tree that never end at end of input
-// (ledger L5, L6; they belong to C05's scanner half).  Cheap syntactic over-approximation,
-// used only to avoid paying the worker timeout again and again.
-func knownScannerHang(s string) bool {
-	for _, kw := range []string{"css", "@param"} {
-		rest := s
-		for {
-			i := strings.Index(rest, kw)
-			if i < 0 {
-				break
-			}
-			rest = rest[i+len(kw):]
-			stop := "}"
-			if kw == "@param" {
-				stop = "}="
-			}
-			if !strings.ContainsAny(rest, stop) {
-				return true
-			}
-		}
-	}
-	return false
-}
-
 var ptTagDict = []string{
 	"{namespace a.b}", "{namespace a autoescape=\"false\"}", "{template .t}", "{template .t private=\"true\"}", "{/template}",
 	"/** doc */", "/** @param x */", "/** @param? y\n @param z */", "{@param x: int}", "{@param? y: string = 'a'}",
@@ -671,10 +647,6 @@ func ptGenInputs(e *env, budget int) []ptCase {
 	r := e.rng
 	var cs []ptCase
 	add := func(kind, fam, text string) {
-		if knownScannerHang(text) {
-			e.res.Histogram["skipped:known-scanner-hang-family(C05)"]++
-			return
-		}
 		cs = append(cs, ptCase{kind, text, fam})
 	}
 	mutate := func(text string) string {
